@@ -27,6 +27,17 @@ func c13Gen(rt *rapid.T) rigScenario {
 	}
 	sc.Ops = append(sc.Ops, rigOp{K: "open"})
 	opened := 1
+	if rapid.IntRange(0, 9).Draw(rt, "acceptorcloses") < 3 {
+		// the accepting side closes a stream on which it has not written anything (sequence number 0 is its closing frame)
+		sc.Ops = append(sc.Ops, rigOp{K: "write", Side: 0, S: 0, N: rapid.SampledFrom([]int{1, 300, vMaxUnit + 5}).Draw(rt, "acw")})
+		for c := 0; c < sc.Cfg.NumConn; c++ {
+			sc.Ops = append(sc.Ops, rigOp{K: "deliver", Side: 0, C: c, Mode: 2})
+		}
+		if rapid.Bool().Draw(rt, "acread") {
+			sc.Ops = append(sc.Ops, rigOp{K: "read", Side: 1, S: 0, N: 70000})
+		}
+		sc.Ops = append(sc.Ops, rigOp{K: "close", Side: 1, S: 0})
+	}
 	nOps := rapid.IntRange(1, 50).Draw(rt, "nops")
 	for i := 0; i < nOps; i++ {
 		k := rapid.IntRange(0, 99).Draw(rt, "kind")
@@ -133,6 +144,20 @@ func c13Tap(r *rig) (frames int, multiFrameWrites bool, err error) {
 				}
 				if s.accepted > int64(vMaxUnit) {
 					multiFrameWrites = true
+				}
+			}
+		}
+		// streams that put nothing on the wire in this direction: a completed Close must still have sent its closing frame
+		if !r.faulted {
+			r.mu.Lock()
+			var mine []*rigStream
+			for _, s := range r.streams[writerSide] {
+				mine = append(mine, s)
+			}
+			r.mu.Unlock()
+			for _, s := range mine {
+				if s.closeDone && s.closeErr == nil && len(byStream[s.id]) == 0 {
+					return 0, false, vk.Violatef("stream %d side %d: Close returned but nothing at all is on the wire for this direction - not even the closing frame (it must be numbered 0 when nothing was written)", s.id, writerSide)
 				}
 			}
 		}
